@@ -269,6 +269,14 @@ impl DiskDevices {
             .mount_points
             .sort_by_key(|(p, _)| cmp::Reverse(p.component_count()));
 
+        #[cfg(fclones_verif)]
+        if let Some(kind) = crate::verif::pinned_disk_kind() {
+            for d in result.devices.iter_mut() {
+                d.disk_kind = kind;
+                d.parallelism = Self::get_parallelism(&d.name, kind, pool_sizes);
+            }
+        }
+
         result
     }
 
